@@ -125,7 +125,8 @@ pub(crate) fn parse_stmt(p: &mut Parser, repl: bool) -> Option<CompletedMarker> 
             // bump the operator
             p.bump();
         }
-        p.bump();
+        // (`expect` and not `bump`, because there might be trivia between the operator and the `=`)
+        p.expect(TokenKind::Equals);
 
         expr::parse_expr(p, "value");
 
